@@ -4,6 +4,7 @@ import Pcore.Proofs.ObjectInitHash
 import Pcore.Proofs.ObjectClosure
 import Pcore.Model.ObjectParams
 import Pcore.Proofs.ObjectAsg
+import Pcore.Proofs.ObjectFuncs
 import Pcore.Generated.ObjectSchema
 import Mathlib.Data.List.Perm.Subperm
 /-!
@@ -90,8 +91,18 @@ Full statement / proved / missing
                          only values the overridden declaration admits (inheritance coheres attribute by attribute).
 * the attribute-type alphabet is Integer, String, Boolean, Float, Any, Undef, Optional[T], NotUndef[T], Variant[A,B], Array[T]
   (`inst`, `asg`, `tyInit` tied to pcore by the ops `tinst` / `asg` on every pair of 85 type expressions).
-* missing altogether: functions, annotations (implementation-only streams `@objd`, `@iface`, `@ifacex`, `@fnover`),
-  Go-reflected objects (`reflectedObject`); the Go-implemented object types are checked on the implementation only (`@goobj`).
+* member functions / interfaces — inside the model (Model/ObjectFuncs: `isInterface`, `allFuncs`, `memberFn`, `implements`,
+                         `isAssignableF`).  `C17f_not_interface`: a receiver that is no interface (every type of a chain
+                         without functions) accepts what the nominal `isAssignable` accepts, so the theorems above apply;
+                         `C17f_instance_closure`: the closure theorem for such receivers with functions in the universe;
+                         `C17f_subtype` (FULL, a `def`): every ancestor, interface or not, accepts the subtype — FALSE of model
+                         and code (known finding C17-iface-override-covariant, negation `C17f_iface_override_covariant`);
+                         proved part `C17f_subtype_partial`: … unless a function of the interface is re-declared at another
+                         type.  Not claimed: "never the reverse" for interfaces (an interface accepts every type that has its
+                         functions, descendant or not — that is what an interface is; asserted on the implementation by `@ifacex`).
+* missing altogether: annotations, a function that shares its name with an attribute of its chain (implementation-only streams
+  `@objd`, `@fnover`, `@msg`), Go-reflected objects (`reflectedObject`); the Go-implemented object types are checked on the
+  implementation only (`@goobj`).
 -/
 namespace Pcore.Object
 
@@ -846,6 +857,81 @@ theorem C17_assignable_closure {ds : List Def} {env : List OType} (h : defineAll
     isAssignable ti tj = true ↔ Relation.ReflTransGen (parentRel ds) i j := by
   have hg : GoodEnv ds env := by simpa using defineAll_good goodEnv_nil h
   exact isAssignable_closure hg hi j tj hj
+
+/-! ### member functions and INTERFACES (Model/ObjectFuncs) -/
+
+/-- a type that is no interface — in particular every type of a chain that declares no function
+    (`isInterface_of_noFuncs`) — accepts exactly what the nominal `IsAssignable` accepts: every theorem about `isAssignable` /
+    `isInstance` above is a theorem about the instance-of the driver computes (`isInstanceF`) -/
+theorem C17f_not_interface {t : OType} (h : isInterface t = false) (o : Obj) (ho : o.typ ≠ []) :
+    isInstanceF t o = isInstance t o := by
+  unfold isInstanceF isInstance
+  exact isAssignableF_of_not_interface h ho
+
+/-- the closure theorem with functions in the universe: for a receiver that is no interface, instance-of is the
+    reflexive-transitive closure of `parent` -/
+theorem C17f_instance_closure {ds : List Def} {env : List OType} (h : defineAll [] ds = .ok env) {i j : Nat}
+    {ti tj : OType} (hi : env[i]? = some ti) (hj : env[j]? = some tj) (hni : isInterface ti = false)
+    (o : Obj) (ho : o.typ = tj) :
+    isInstanceF ti o = true ↔ Relation.ReflTransGen (parentRel ds) i j := by
+  have hg : GoodEnv ds env := by simpa using defineAll_good goodEnv_nil h
+  obtain ⟨l, r, htj, -⟩ := good_head hg hj
+  rw [C17f_not_interface hni o (by rw [ho, htj]; simp)]
+  exact C17_instance_closure h hi hj o ho
+
+/-- FULL statement with interfaces: every ancestor — interface or not — accepts the subtype.  FALSE of model and code: the
+    known finding C17-iface-override-covariant (`C17f_iface_override_covariant`). -/
+def C17f_subtype : Prop :=
+  ∀ (p : OType) (pre : List Level), p ≠ [] → (∀ l ∈ pre ++ p, (l.funcs.map (·.name)).Nodup) →
+    isAssignableF p (pre ++ p) = true
+
+/-- proved part: an ancestor that is no interface accepts every subtype; an INTERFACE ancestor accepts a subtype none of
+    whose additional levels declares an attribute named like one of the interface's functions (impossible in the universe)
+    or re-declares one of them at ANOTHER type.  Missing: exactly the finding (an override at a narrower type). -/
+theorem C17f_subtype_partial {p : OType} {pre : List Level} (hp : p ≠ [])
+    (hnd : ∀ l ∈ p, (l.funcs.map (·.name)).Nodup)
+    (hpre : isInterface p = true → ∀ l ∈ pre, ∀ f ∈ allFuncs p, l.attrs.any (fun a => a.name == f.name) = false ∧
+      ∀ g ∈ l.funcs, g.name = f.name → g.ret = f.ret) :
+    isAssignableF p (pre ++ p) = true := by
+  have hne : pre ++ p ≠ [] := by simp [hp]
+  by_cases hi : isInterface p = true
+  · unfold isAssignableF
+    cases hpp : pre ++ p with
+    | nil => exact absurd hpp hne
+    | cons l q =>
+      simp only [hi, if_true]
+      rw [← hpp]
+      exact implements_suffix (isInterface_attrs hi) hnd pre (hpre hi)
+  · have hf : isInterface p = false := by simpa using hi
+    rw [isAssignableF_of_not_interface hf hne]
+    exact isAssignable_suffix hp ⟨pre, rfl⟩
+
+def lvI : Level :=
+  { id := 0, attrs := [], equality := none, includeType := true, serialization := none,
+    funcs := [{ name := "fx", ret := .any }] }
+def lvC : Level :=
+  { id := 1, attrs := [], equality := none, includeType := true, serialization := none,
+    funcs := [{ name := "fx", ret := .int, override := true }] }
+
+/-- the known finding C17-iface-override-covariant, replayed in the model: `I = {functions => {fx => Callable[[0,0],Any]}}` is an
+    interface, its subtype `C` overrides `fx` at `Callable[[0,0],Integer]` (the override check admits it: `asg any int`), and
+    `I` does not accept `C` -/
+theorem C17f_iface_override_covariant : ¬ C17f_subtype := by
+  intro h
+  have := h [lvI] [lvC] (by simp) (by decide)
+  revert this
+  decide
+
+/-- hypotheses of `C17f_subtype_partial` / `C17f_instance_closure`: the definition of `C` is ACCEPTED on top of `I` (the
+    override is proper), `I` is an interface, a subtype that re-declares `fx` at the same type is accepted by it, and a
+    type with an attribute is no interface -/
+def defC : Def :=
+  { parent := some 0, attrs := [], equality := .absent, includeType := none, serialization := none,
+    funcs := [{ name := "fx", ret := .int, override := true }] }
+def lvCsame : Level := { lvC with funcs := [{ name := "fx", ret := .any, override := true }] }
+example : define [[lvI]] defC = .ok [lvC, lvI] := by decide
+example : isInterface [lvI] = true ∧ isInterface [lvC, lvI] = true ∧ isInterface [lvA 0] = false ∧
+    isAssignableF [lvI] [lvCsame, lvI] = true := by decide
 
 /-! ### inheritance coheres at the attribute level: an override may only narrow -/
 
